@@ -1743,7 +1743,7 @@ class ASTAlterAddPartitionExpression(ASTAlterExpressionBase):
     def source(self, sql_type: SQLType = SQLType.DEFAULT) -> str:
         """返回语法节点的 SQL 源码"""
         if_exists_str = " IF NOT EXISTS" if self.if_not_exists else ""
-        return f"DROP{if_exists_str} {self.partition.source(sql_type)}"
+        return f"ADD{if_exists_str} {self.partition.source(sql_type)}"
 
 
 @dataclasses.dataclass(slots=True, frozen=True, eq=True)
